@@ -7,8 +7,6 @@ From Coq Require String.
 Import String.StringSyntax.
 Open Scope nat_scope.
 
-(* nothing is excluded any more: the former exclusions are kept as trivially true conditions *)
-Definition ok_fields (fs : list cfield) : bool := true.
 
 Definition fel : Type := (blank * cfield)%type.
 Definition pr_fel (e : fel) (r : list byte) : list byte := pr_blank (fst e) (pr_field (snd e) r).
@@ -34,7 +32,7 @@ Lemma dhead_ascii x : dhead x -> hd_ascii x = true.
 Proof. intros [b0 [rest [-> Hb]]]. unfold hd_ascii. cbn [hd_sat]. now apply digit_ascii. Qed.
 
 Lemma chain_fields es k : k <> [] -> hd_ascii k = true -> chain pr_fel felQ es k -> fhdnil es ->
-  prl pr_fel es k = pr_fields (map snd es) k /\ (ok_fields (map snd es) = true -> wf_fields (map snd es) = true).
+  prl pr_fel es k = pr_fields (map snd es) k /\ wf_fields (map snd es) = true.
 Proof.
   intros Hk Hak. induction es as [|[bl f] es IH]; cbn [chain prl fold_right map snd pr_fields fhdnil fst]; intros Hc Hh.
   - split; reflexivity.
@@ -45,10 +43,10 @@ Proof.
     { destruct es as [|[bl' f'] es']; [contradiction|]. intros _. cbn [fhdnil fst] in Hh'. subst bl'. cbn [chain] in Hc.
       destruct Hc as [[_ [_ [_ [Hd0 _]]]] _]. cbn [prl fold_right]. unfold pr_fel at 1. cbn [fst snd pr_blank]. exact Hd0. }
     destruct (IH Hc Hh') as [E Wr]. pose proof (prl_fel_nonnil es k Hk) as Rn. unfold pr_fel at 1. cbn [fst snd pr_blank].
-    rewrite E in *. split; [reflexivity|]. cbn [wf_fields]. intros _.
+    rewrite E in *. split; [reflexivity|]. cbn [wf_fields].
     assert (Ar : hd_ascii (pr_fields (map snd es) k) = true).
     { destruct es as [|e' es']; [exact Hak|]. apply dhead_ascii. apply Hd'. discriminate. }
-    rewrite (Hw Rn Ar), (Wr eq_refl). rewrite andb_true_r. cbn [andb].
+    rewrite (Hw Rn Ar), Wr. rewrite andb_true_r. cbn [andb].
     destruct es as [|e' es']; [reflexivity|]. cbn [map is_nil orb].
     destruct (field_ends_word f) eqn:Ef; [|reflexivity]. exfalso.
     specialize (Hnid eq_refl). destruct (Hd' ltac:(discriminate)) as [d0 [rest [Ed0 Hd0]]].
@@ -76,7 +74,7 @@ Qed.
 (* a run of fields followed by the blank slot in front of the closing bracket *)
 Lemma frun_shape es i1 i2 o : chain pr_fel felQ es i1 -> opt (p_blank lf) i1 = POk i2 o -> i2 <> [] -> nb i2 = true -> hd_ascii i2 = true ->
   exists b0 fs, prl pr_fel es i1 = pr_blank b0 (pr_fields fs i2) /\ map (fun e : fel => erase_field (snd e)) es = map erase_field fs /\
-                wf_blank b0 = true /\ (ok_fields fs = true -> wf_fields fs = true) /\ (es <> [] -> fs <> []).
+                wf_blank b0 = true /\ wf_fields fs = true /\ (es <> [] -> fs <> []).
 Proof.
   intros Hc E Hne Hnb Hai. destruct (oblank_inv _ _ _ _ E) as [bc [Ei [Kc [_ Hnone]]]].
   destruct es as [|[bl0 f0] es].
@@ -94,7 +92,7 @@ Proof.
 Qed.
 
 Lemma frun0_inv i i1 i2 l o : many0 lf (fld lf df) i = POk i1 l -> opt (p_blank lf) i1 = POk i2 o -> i2 <> [] -> nb i2 = true -> hd_ascii i2 = true ->
-  exists b0 fs, i = pr_blank b0 (pr_fields fs i2) /\ l = map erase_field fs /\ wf_blank b0 = true /\ (ok_fields fs = true -> wf_fields fs = true).
+  exists b0 fs, i = pr_blank b0 (pr_fields fs i2) /\ l = map erase_field fs /\ wf_blank b0 = true /\ wf_fields fs = true.
 Proof.
   intros E1 E2 Hne Hnb Hai.
   apply (many0_inv (fld lf df) (fun e : fel => erase_field (snd e)) pr_fel felQ fld_inv) in E1. destruct E1 as [es [-> [<- [Hc _]]]].
@@ -102,7 +100,7 @@ Proof.
 Qed.
 
 Lemma frun1_inv i i1 i2 l o : many1 lf (fld lf df) i = POk i1 l -> opt (p_blank lf) i1 = POk i2 o -> i2 <> [] -> nb i2 = true -> hd_ascii i2 = true ->
-  exists b0 fs, i = pr_blank b0 (pr_fields fs i2) /\ l = map erase_field fs /\ wf_blank b0 = true /\ (ok_fields fs = true -> wf_fields fs = true) /\
+  exists b0 fs, i = pr_blank b0 (pr_fields fs i2) /\ l = map erase_field fs /\ wf_blank b0 = true /\ wf_fields fs = true /\
                 fs <> [].
 Proof.
   intros E1 E2 Hne Hnb Hai.
@@ -114,7 +112,7 @@ Qed.
 
 (* ---------- struct / union / exception bodies ---------- *)
 Theorem struct_like_inv i r a : p_struct_like lf df i = POk r a ->
-  exists c, i = pr_struct_like c r /\ erase_struct c = a /\ (ok_fields (cs_fields c) = true -> wf_struct (is_nil r) c = true) /\
+  exists c, i = pr_struct_like c r /\ erase_struct c = a /\ wf_struct (is_nil r) c = true /\
             (tail_open (cs_tail c) = true -> noblank r) /\ whead (pr_struct_like c r).
 Proof.
   rewrite p_struct_like_eq. intros H. binv H. inversion H; subst.
@@ -124,7 +122,7 @@ Proof.
   destruct (tail_inv _ _ _ _ _ _ _ _ E5 E6 E7) as [tl [-> [Ean [Wtl [Hop [Hsn _]]]]]].
   eexists (mkCStruct _ b1 b0 fs tl). unfold pr_struct_like, erase_struct, wf_struct. cbn [cs_name cs_b1 cs_b0 cs_fields cs_tail].
   change sym_struct_open with (txt "{"). change sym_struct_close with (txt "}"). rewrite Ean. split; [reflexivity|]. repeat split; auto.
-  - intros Hok. rewrite Hname, (blank_ok_nonnil _ _ K1) by discriminate. now rewrite W0, (Wf Hok), Wtl.
+  - rewrite Hname, (blank_ok_nonnil _ _ K1) by discriminate. now rewrite W0, Wf, Wtl.
   - match type of Hname with is_ident ?x = true => destruct x as [|h0 tl0]; [discriminate|] end.
     cbn [is_ident] in Hname. apply andb_prop in Hname. destruct Hname as [Hh _]. eexists h0, _. split; [reflexivity|now apply identch_head].
 Qed.
@@ -186,8 +184,6 @@ Proof.
     + apply is_nil_true in He. subst b1. exact Hnid.
 Qed.
 
-(* nothing is excluded among enum values any more (kept as a name: the enum-level statements mention it) *)
-Definition ok_enumvals (l : list cenumval) : bool := true.
 
 Definition evQ (e : cenumval) (r : list byte) : Prop :=
   (r <> [] -> wf_enumval e = true) /\ noblank r /\ whead (pr_enumval e r) /\
@@ -204,12 +200,12 @@ Proof.
 Qed.
 
 Lemma chain_enumvals l k0 : let k := x7d :: k0 in
-  chain pr_enumval evQ l k -> (ok_enumvals l = true -> wf_enumvals l = true) /\ (l <> [] -> noblank k).
+  chain pr_enumval evQ l k -> wf_enumvals l = true /\ (l <> [] -> noblank k).
 Proof.
   intros k. assert (Hk : k <> []) by discriminate.
   induction l as [|e l IH]; cbn [chain wf_enumvals]; intros Hc; [split; [reflexivity|contradiction]|].
   destruct Hc as [[Hw [Hn [_ Hnid]]] Hc]. destruct (IH Hc) as [Wr Hlast]. rewrite prl_enumvals in *. split.
-  - intros _. specialize (Wr eq_refl). rewrite (Hw (pr_enumvals_nonnil l k Hk)), Wr. rewrite andb_true_r. cbn [andb].
+  - rewrite (Hw (pr_enumvals_nonnil l k Hk)), Wr. rewrite andb_true_r. cbn [andb].
     destruct l as [|e' l']; [reflexivity|]. unfold enumval_glue. destruct (enumval_ends_word e) eqn:Ee; [|reflexivity]. cbn [negb orb].
     specialize (Hnid eq_refl). destruct (ev_val e) as [[[v1 ci] v2]|].
     + destruct (enumvals_after_name e' l' k0 Wr) as [Y [EY HY]]. fold k in EY. rewrite EY in Hnid.
@@ -220,7 +216,7 @@ Proof.
 Qed.
 
 Theorem enum_inv i r a : p_enum lf i = POk r a ->
-  exists c, i = pr_enum c r /\ erase_enum c = a /\ (ok_enumvals (ce_vals c) = true -> wf_enum (is_nil r) c = true) /\
+  exists c, i = pr_enum c r /\ erase_enum c = a /\ wf_enum (is_nil r) c = true /\
             (ce_anns c = None -> noblank r).
 Proof.
   unfold p_enum. intros H. binv H. inversion H; subst.
@@ -245,8 +241,8 @@ Proof.
   eexists (mkCEnum b1 _ b2 b0 vs b3 an). unfold pr_enum, erase_enum, wf_enum. cbn [ce_b1 ce_name ce_b2 ce_b0 ce_vals ce_b3 ce_anns].
   change kw_enum with (txt "enum"). change sym_enum_open with (txt "{"). change sym_enum_close with (txt "}").
   split; [reflexivity|]. split; [f_equal; destruct an; reflexivity|]. split.
-  - intros Hok. rewrite (blank_ok_nonnil _ _ K1) by (now apply nonnil_app_ident). rewrite Hname, (blank_ok_nonnil _ _ K2) by discriminate.
-    rewrite (blank_ok_nonnil _ _ K0) by (apply pr_enumvals_nonnil; discriminate). rewrite (Wvs Hok), Wa.
+  - rewrite (blank_ok_nonnil _ _ K1) by (now apply nonnil_app_ident). rewrite Hname, (blank_ok_nonnil _ _ K2) by discriminate.
+    rewrite (blank_ok_nonnil _ _ K0) by (apply pr_enumvals_nonnil; discriminate). rewrite Wvs, Wa.
     destruct b1; [contradiction|]. cbn [is_nil negb andb]. rewrite andb_true_r.
     destruct an as [l|]; cbn [is_none pr_oanns] in *; rewrite ?andb_false_r, ?andb_true_r.
     + apply (blank_ok_nonnil _ _ K3). unfold pr_anns. discriminate.
@@ -258,7 +254,7 @@ Qed.
 Lemma args_inv i i1 i2 o o2 : opt (many1 lf (fld lf df)) i = POk i1 o -> opt (p_blank lf) i1 = POk i2 o2 -> i2 <> [] -> nb i2 = true ->
   hd_ascii i2 = true ->
   exists b0 fs, i = pr_blank b0 (pr_fields fs i2) /\ unwrap_or_default o = map erase_field fs /\ wf_blank b0 = true /\
-                (ok_fields fs = true -> wf_fields fs = true).
+                wf_fields fs = true.
 Proof.
   intros E1 E2 Hne Hnb Hai. apply opt_inv in E1. destruct E1 as [[l [-> E1]]|[-> [-> _]]].
   - destruct (frun1_inv _ _ _ _ _ E1 E2 Hne Hnb Hai) as [b0 [fs [-> [-> [W0 [Wf _]]]]]]. exists b0, fs. auto.
@@ -266,27 +262,25 @@ Proof.
     apply (blank_ok_nonnil _ _ K0 Hne).
 Qed.
 
-Definition ok_throws (t : option cthrows) : bool := true.
 
 Lemma throws_group_inv i i1 i2 o o2 : opt (p_throws lf df) i = POk i1 o -> opt (p_blank lf) i1 = POk i2 o2 -> noblank i ->
   exists th : option cthrows, i = pr_throws th i2 /\
     unwrap_or_default o = match th with Some t => map erase_field (th_fields t) | None => [] end /\
-    (i2 <> [] -> ok_throws th = true -> wf_throws th = true) /\ noblank i2 /\ (th = None -> i2 = i).
+    (i2 <> [] -> wf_throws th = true) /\ noblank i2 /\ (th = None -> i2 = i).
 Proof.
   intros E1 E2 Hn. apply opt_inv in E1. destruct E1 as [[l [-> E1]]|[-> [-> _]]].
   - unfold p_throws in E1. binv E1. inversion E1; subst. apply tag_inv in E. destruct E as [-> _].
     destruct (oblank_inv _ _ _ _ E0) as [t1 [-> [K1 _]]]. apply tag_inv in E3. destruct E3 as [-> _]. apply tag_inv in E6. destruct E6 as [-> _].
     destruct (frun1_inv _ _ _ _ _ E4 E5 ltac:(discriminate) eq_refl eq_refl) as [t0 [fs [-> [-> [W0 [Wf Hne]]]]]].
     destruct (oblank_inv _ _ _ _ E2) as [t2 [-> [K2 [N2 _]]]].
-    exists (Some (mkCThrows t1 t0 fs t2)). cbn [pr_throws th_b1 th_b0 th_fields th_b2 unwrap_or_default ok_throws wf_throws].
+    exists (Some (mkCThrows t1 t0 fs t2)). cbn [pr_throws th_b1 th_b0 th_fields th_b2 unwrap_or_default wf_throws].
     change kw_throws with (txt "throws"). change sym_throws_open with (txt "("). change sym_throws_close with (txt ")").
     repeat split; auto; try discriminate.
-    intros Hr Hok. rewrite (blank_ok_nonnil _ _ K1) by discriminate. rewrite W0, (Wf Hok), (blank_ok_nonnil _ _ K2 Hr).
+    intros Hr. rewrite (blank_ok_nonnil _ _ K1) by discriminate. rewrite W0, Wf, (blank_ok_nonnil _ _ K2 Hr).
     destruct fs; [contradiction|reflexivity].
   - destruct (noblank_oblank _ _ _ _ Hn E2) as [-> _]. exists None. repeat split; auto.
 Qed.
 
-Definition ok_function (f : cfunction) : bool := true.
 
 (* the keyword oneway was not read although the text begins with the word: no blank follows the word *)
 Lemma oneway_head_inv t R : wf_type t = true -> is_perr (p_oneway lf (pr_type t R)) -> ~ noblank R -> oneway_head_ok t = true.
@@ -314,7 +308,7 @@ Lemma pr_oanns_nonnil a k : k <> [] -> pr_oanns a k <> [].
 Proof. destruct a; cbn [pr_oanns]; [unfold pr_anns; discriminate|auto]. Qed.
 
 Theorem function_inv i r a : p_function lf df i = POk r a ->
-  exists f, i = pr_function f r /\ erase_function f = a /\ (r <> [] -> ok_function f = true -> wf_function f = true) /\
+  exists f, i = pr_function f r /\ erase_function f = a /\ (r <> [] -> wf_function f = true) /\
             (function_closed f = false -> noblank r) /\ whead (pr_function f r).
 Proof.
   rewrite p_function_eq. intros H. binv H. inversion H; subst.
@@ -336,19 +330,19 @@ Proof.
       apply (blank_ok_nonnil _ _ Kb). rewrite Et. apply whead_nonnil, Ht.
     - exists None. repeat split. exact Herr. }
   destruct Eow as [ow [-> [Eoo Wow]]]. subst i0.
-  eexists (mkCFunction ow t b1 _ b2 b0 args b3 th an sp). unfold erase_function, wf_function, function_closed, ok_function.
+  eexists (mkCFunction ow t b1 _ b2 b0 args b3 th an sp). unfold erase_function, wf_function, function_closed.
   cbn [fn_coneway fn_type fn_b1 fn_cname fn_b2 fn_b0 fn_args fn_b3 fn_cthrows fn_canns fn_sep].
   change sym_fn_open with (txt "(") in *. change sym_fn_close with (txt ")") in *.
   split; [unfold pr_function; cbn [fn_coneway fn_type fn_b1 fn_cname fn_b2 fn_b0 fn_args fn_b3 fn_cthrows fn_canns fn_sep]; destruct ow; reflexivity|].
   split; [rewrite Eoo, Eargs, Eth; f_equal; destruct an; reflexivity|]. split; [|split].
-  - intros Hr _.
+  - intros Hr.
     assert (WT : wf_type t = true) by (apply Wt; exact (blank_ne_ascii _ _ K1 N1)).
     assert (RS : pr_sep sp r <> []) by now apply pr_sep_nonnil.
     assert (RA : pr_oanns an (pr_sep sp r) <> []) by now apply pr_oanns_nonnil.
     assert (RT : pr_throws th (pr_oanns an (pr_sep sp r)) <> []) by now apply pr_throws_nonnil.
     rewrite WT, (blank_ok_nonnil _ _ K1) by (now apply nonnil_app_ident).
-    rewrite Hname, (blank_ok_nonnil _ _ K2) by discriminate. rewrite W0, (Wargs eq_refl), (blank_ok_nonnil _ _ K3 RT).
-    rewrite (Wth RA eq_refl), Wa, (wf_sep_of sp r Hs Hr).
+    rewrite Hname, (blank_ok_nonnil _ _ K2) by discriminate. rewrite W0, Wargs, (blank_ok_nonnil _ _ K3 RT).
+    rewrite (Wth RA), Wa, (wf_sep_of sp r Hs Hr).
     destruct b1; [contradiction|]. cbn [is_nil negb andb]. rewrite !andb_true_r.
     destruct ow as [bo|]; [destruct Wow as [-> Hne]; destruct bo; [contradiction|reflexivity]|].
     apply (oneway_head_inv t _ WT Wow). intros Hnb. apply (noblank_blank lf) in Hnb. rewrite E1 in Hnb. exact Hnb.
@@ -362,7 +356,7 @@ Qed.
 Definition fnel : Type := (blank * cfunction)%type.
 Definition pr_fnel (e : fnel) (r : list byte) : list byte := pr_blank (fst e) (pr_function (snd e) r).
 Definition fnQ (e : fnel) (r : list byte) : Prop :=
-  blank_ok (fst e) (pr_function (snd e) r) /\ (r <> [] -> ok_function (snd e) = true -> wf_function (snd e) = true) /\
+  blank_ok (fst e) (pr_function (snd e) r) /\ (r <> [] -> wf_function (snd e) = true) /\
   (function_closed (snd e) = false -> noblank r) /\ whead (pr_function (snd e) r) /\ (noblank (pr_fnel e r) -> fst e = []).
 
 Lemma fnp_inv i r f : fnp lf df i = POk r f -> exists e : fnel, i = pr_fnel e r /\ erase_function (snd e) = f /\ fnQ e r.
@@ -385,19 +379,19 @@ Lemma prl_fns l k : prl pr_fnel l k = pr_fns l k.
 Proof. induction l as [|[b f] l IH]; cbn [prl fold_right pr_fns]; [reflexivity|]. fold (prl pr_fnel l k). now rewrite IH. Qed.
 
 Lemma chain_fns : forall l pc k, k <> [] -> chain pr_fnel fnQ l k -> (pc = false -> noblank (prl pr_fnel l k)) ->
-  (forallb (fun e : fnel => ok_function (snd e)) l = true -> wf_fns pc l = true) /\ (last_closed pc l = false -> noblank k).
+  wf_fns pc l = true /\ (last_closed pc l = false -> noblank k).
 Proof.
   induction l as [|[b f] l IH]; intros pc k Hk Hc Hpc; cbn [chain forallb wf_fns last_closed snd] in *.
   - split; [reflexivity|exact Hpc].
   - destruct Hc as [[Kb [Hw [Hcl [Hh Hnil]]]] Hc]. cbn [fst snd] in *. fold (prl pr_fnel l k) in *.
     destruct (IH (function_closed f) k Hk Hc Hcl) as [Wr Hlast]. split; [|exact Hlast].
-    intros Hok. bsplit Hok. rewrite (blank_ok_nonnil _ _ Kb (whead_nonnil _ Hh)), (Hw (prl_fnel_nonnil l k Hk) ltac:(assumption)), (Wr ltac:(assumption)).
+    rewrite (blank_ok_nonnil _ _ Kb (whead_nonnil _ Hh)), (Hw (prl_fnel_nonnil l k Hk)), Wr.
     rewrite andb_true_r. cbn [andb]. destruct pc; [reflexivity|]. cbn [orb]. rewrite (Hnil (Hpc eq_refl)). reflexivity.
 Qed.
 
 Theorem service_inv i r a : p_service lf df i = POk r a ->
   exists c, i = pr_service c r /\ erase_service c = a /\
-            (forallb (fun e : fnel => ok_function (snd e)) (sv_fns c) = true -> wf_service (is_nil r) c = true) /\
+            wf_service (is_nil r) c = true /\
             (tail_open (sv_tail c) = true -> noblank r).
 Proof.
   rewrite p_service_eq. intros H. binv H. inversion H; subst.
@@ -435,8 +429,8 @@ Proof.
   cbn [sv_b1 sv_cname sv_cextends sv_b2 sv_fns sv_b3 sv_tail]. change kw_service with (txt "service").
   change sym_service_open with (txt "{") in *. change sym_service_close with (txt "}") in *. rewrite Ean.
   split; [reflexivity|]. split; [reflexivity|]. split; [|exact Hop].
-  intros Hok. rewrite (blank_ok_nonnil _ _ K1) by (now apply nonnil_app_ident). rewrite Hname, Wext, (blank_ok_nonnil _ _ K2) by discriminate.
-  rewrite (Wfns Hok), (blank_ok_nonnil _ _ K3) by discriminate. rewrite Hb3, Wtl.
+  rewrite (blank_ok_nonnil _ _ K1) by (now apply nonnil_app_ident). rewrite Hname, Wext, (blank_ok_nonnil _ _ K2) by discriminate.
+  rewrite Wfns, (blank_ok_nonnil _ _ K3) by discriminate. rewrite Hb3, Wtl.
   destruct b1; [contradiction|]. reflexivity.
 Qed.
 
@@ -519,7 +513,7 @@ Proof. unfold p_item_keyword, peek. destruct (recognize _ i); intros H; inversio
 Lemma struct_kw_inv (p : parser StructLike) kw i r a :
   (forall i, p i = (do i, _ <- tag kw i ;; do i, _ <- p_blank lf i ;; p_struct_like lf df i)) -> p i = POk r a ->
   exists b c, i = kw ++ pr_blank b (pr_struct_like c r) /\ erase_struct c = a /\ wf_blank b = true /\ b <> [] /\
-              (ok_fields (cs_fields c) = true -> wf_struct (is_nil r) c = true) /\ (tail_open (cs_tail c) = true -> noblank r).
+              wf_struct (is_nil r) c = true /\ (tail_open (cs_tail c) = true -> noblank r).
 Proof.
   intros Hp H. rewrite Hp in H. apply pbind_ok in H. destruct H as [j1 [u1 [T H]]]. apply pbind_ok in H. destruct H as [j2 [u2 [B H]]].
   apply tag_inv in T. destruct T as [-> _]. destruct (blank_inv _ _ _ _ B) as [b [-> [Nb [Kb _]]]].
@@ -572,27 +566,26 @@ Proof.
     destruct (struct_kw_inv (p_struct lf df) kw_struct _ _ _ ltac:(reflexivity) H) as [b [c [-> [<- [Wb [Nb [Wn Hop]]]]]]].
     exists (CIStruct SKStruct b c). unfold itemP. cbn [pr_item erase_item wf_item item_open item_ends_word is_const skind_kw].
     change kw_struct with (txt "struct"). repeat split; auto; try discriminate.
-    - intros _. rewrite Wb, (Wn eq_refl). destruct b; [contradiction|reflexivity].
+    - intros _. rewrite Wb, Wn. destruct b; [contradiction|reflexivity].
     - apply ahead_txt; [reflexivity|discriminate]. }
   destruct (bytes_eqb kw arm_union).
   { apply pmap_ok in H. destruct H as [n [H ->]].
     destruct (struct_kw_inv (p_union lf df) kw_union _ _ _ ltac:(reflexivity) H) as [b [c [-> [<- [Wb [Nb [Wn Hop]]]]]]].
     exists (CIStruct SKUnion b c). unfold itemP. cbn [pr_item erase_item wf_item item_open item_ends_word is_const skind_kw].
     change kw_union with (txt "union"). repeat split; auto; try discriminate.
-    - intros _. rewrite Wb, (Wn eq_refl). destruct b; [contradiction|reflexivity].
+    - intros _. rewrite Wb, Wn. destruct b; [contradiction|reflexivity].
     - apply ahead_txt; [reflexivity|discriminate]. }
   destruct (bytes_eqb kw arm_exception).
   { apply pmap_ok in H. destruct H as [n [H ->]].
     destruct (struct_kw_inv (p_exception lf df) kw_exception _ _ _ ltac:(reflexivity) H) as [b [c [-> [<- [Wb [Nb [Wn Hop]]]]]]].
     exists (CIStruct SKException b c). unfold itemP. cbn [pr_item erase_item wf_item item_open item_ends_word is_const skind_kw].
     change kw_exception with (txt "exception"). repeat split; auto; try discriminate.
-    - intros _. rewrite Wb, (Wn eq_refl). destruct b; [contradiction|reflexivity].
+    - intros _. rewrite Wb, Wn. destruct b; [contradiction|reflexivity].
     - apply ahead_txt; [reflexivity|discriminate]. }
   destruct (bytes_eqb kw arm_service); [|discriminate].
   apply pmap_ok in H. destruct H as [n [H ->]]. destruct (service_inv _ _ _ H) as [c [-> [<- [Wn Hop]]]].
   exists (CIService c). unfold itemP. cbn [pr_item erase_item wf_item item_open item_ends_word is_const]. repeat split; auto; try discriminate.
-  - intros _. apply Wn. clear. induction (sv_fns c) as [|e l IH]; [reflexivity|exact IH].
-  - unfold pr_service. apply ahead_txt; [reflexivity|discriminate].
+  unfold pr_service. apply ahead_txt; [reflexivity|discriminate].
 Qed.
 
 End Items.
